@@ -568,6 +568,9 @@ func runParent(ck *Check, tier string, seed int64, nproc int, budget time.Durati
 		nviol++
 		exit = 1
 		if nviol > 10 {
+			if os.Getenv("VERIF_ALLKEYS") != "" {
+				fmt.Printf("  more: key=%s sub=%s case=%d :: %s\n", v.Key, v.Sub, v.CaseNo, strings.SplitN(v.Detail, "\n", 2)[0])
+			}
 			continue
 		}
 		name := fmt.Sprintf("%s-%s-%d.json", ck.Prop, sanitize(v.Sub), v.CaseNo)
